@@ -41,7 +41,7 @@ mutual
 end
 
 /-- The root in which a lookup succeeded. -/
-theorem findList?_root (h : Nat) : ∀ (L : List HTree) (s : HTree), findList? h L = some s →
+theorem fc_findList?_root (h : Nat) : ∀ (L : List HTree) (s : HTree), findList? h L = some s →
     ∃ t ∈ L, find? h t = some s
   | [], s => by intro hs; simp [findList?] at hs
   | k :: ks, s => by
@@ -54,7 +54,7 @@ theorem findList?_root (h : Nat) : ∀ (L : List HTree) (s : HTree), findList? h
       exact ⟨k, by simp, hk⟩
     | none =>
       rw [hk] at hs
-      obtain ⟨t, ht, h2⟩ := findList?_root h ks s hs
+      obtain ⟨t, ht, h2⟩ := fc_findList?_root h ks s hs
       exact ⟨t, by simp [ht], h2⟩
 
 theorem kids_handles_sub (t : HTree) : ∀ k ∈ t.kids, ∀ a ∈ handles k, a ∈ handles t := by
